@@ -441,9 +441,9 @@ Record pstate := PState {
   role : position
 }.
 
-Definition finish_element (last_nb : nat) (common : option nat) (i : nat) (ph : placeholder) : M pattern_element :=
+Definition finish_element (last_nb : nat) (common : option nat) (i : nat) (ph : placeholder) : M (option pattern_element) :=
   match ph with
-  | PHPlaceable e => ret (PlaceableElement e)
+  | PHPlaceable e => ret (Some (PlaceableElement e))
   | PHText start end_ indent role =>
       let start' := if is_line_start role
                     then match common with
@@ -451,8 +451,11 @@ Definition finish_element (last_nb : nat) (common : option nat) (i : nat) (ph : 
                          | Some c => start + Nat.min indent c
                          end
                     else start in
-      v <- source_slice start' end_ ;;
-      ret (TextElement (if Nat.eqb last_nb i then trim_end v else v))
+      (* filter_map: indentation in front of a placeable that is entirely common indent yields no element *)
+      if Nat.eqb start' end_ then ret None
+      else
+        v <- source_slice start' end_ ;;
+        ret (Some (TextElement (if Nat.eqb last_nb i then trim_end v else v)))
   end.
 
 Fixpoint finish_elements (last_nb : nat) (common : option nat) (i : nat) (phs : list placeholder) : M (list pattern_element) :=
@@ -461,7 +464,7 @@ Fixpoint finish_elements (last_nb : nat) (common : option nat) (i : nat) (phs : 
   | ph :: r =>
       x <- finish_element last_nb common i ph ;;
       xs <- finish_elements last_nb common (S i) r ;;
-      ret (x :: xs)
+      ret (match x with Some e => e :: xs | None => xs end)
   end.
 
 Definition finish_pattern (st : pstate) : M (option pattern) :=
@@ -536,7 +539,8 @@ with pattern_loop (n : nat) (st : pstate) : M pstate :=
                            (if nonblank then Some (n_elements st) else last_non_blank st) ci (role st)
                   else PState (elements st) (n_elements st) (last_non_blank st) ci (role st)
                 else if ls && (match term with TPlaceableStart => true | _ => false end) then
-                  PState (elements st) (n_elements st) (last_non_blank st)
+                  (* the indentation in front of a line-leading placeable: what exceeds the common indent is text *)
+                  PState (PHText slice_start end_ indent (role st) :: elements st) (S (n_elements st)) (last_non_blank st)
                          (Some (match common_indent st with None => indent | Some c => Nat.min c indent end))
                          (role st)
                 else st in
@@ -609,7 +613,8 @@ with variants_loop (n : nat) (acc : list variant) (has_default : bool) : M (list
         let has_default := has_default || default in
         br <- take_byte_if 91 ;;
         if negb br then
-          (if has_default then ret (rev acc) else error_here MissingDefaultVariant)
+          (if default then error_here (ExpectedToken 91)
+           else if has_default then ret (rev acc) else error_here MissingDefaultVariant)
         else
           key <- get_variant_key ;;
           value <- get_pattern n' ;;
